@@ -24,6 +24,20 @@ NOTES = ("All checks are property-based tests / fuzzers over generated inputs (D
 NOT_YET = {}
 
 TEXT = {
+    "C04": {
+        "engine": "engine-G",
+        "technique": "property-based testing with an address-identity oracle: snapshots before/after PrettySortBlocks / Optimize / SetShapeOrder / default Save over generated scene graphs, synthesised files and samples; invariants on survivors, reference targets, child multisets, canonical payloads, idempotence and reload",
+        "level_text": "Thousands of generated scene graphs (node trees, shapes of every kind, shared texture sets, collision sub-graphs with constraints and chains, controller chains, ordered/multibound nodes, loose blocks, permuted order, root not first), synthesised multi-block files and all samples x four operations (explicit shape orders incl. duplicate/missing names and wrong length): every clause of the statement is evaluated on object identities observed from outside the sorter.",
+        "level_note": "Object address is block identity; bounds are recomputed before the snapshot; empty reference entries are ignored on both sides; payloads are taken from clones with reference fields masked (H3) and string indices replaced by text (H4).",
+        "design_ref": "DESIGN.md section 3, C04",
+    },
+    "C06": {
+        "engine": "engine-G",
+        "technique": "model-based stateful testing: exhaustive enumeration of command sequences (all argument choices) to a bounded depth on small graphs plus rapidcheck-generated longer sequences on created / synthesised / sample models, against an executable token model (object address = identity)",
+        "level_text": "All sequences of add / delete / delete-NPOS / replace / set-order (all permutations) / delete-by-type / prune-unreferenced / prune-nodes / sort commands up to depth 3 (4 thorough) on the smallest start graphs and depth 2 (3) on 4-9-block graphs with collision-free skin/loose/cyclic structure, in a size-table and a no-size-table version, are executed against the model; after every command token order, reference targets, slot validity and header type strings are compared, deletion counts are compared, and at the end a copy is saved and reloaded (type table compact, graph equal). Exhaustive inside those bounds, sampled beyond.",
+        "level_note": "Reference targets are compared as multisets per owner; SetBlockOrder receives permutations only; geometry-data blocks referenced by a shape are never deleted/replaced (cached raw pointer hazard, outside the property); writing may only drop references (fixed-arity constraint entities).",
+        "design_ref": "DESIGN.md section 3, C06",
+    },
     "C17": {
         "engine": "engine-G",
         "technique": "property-based testing: generated segmentation infos / partition infos and per-triangle label lists; set -> get round trip against a reference model of the documented renumbering and stable sort, structural check of the stored range records, metamorphic vertex deletion, save/reload",
